@@ -157,6 +157,14 @@ impl<'tcx> Cx<'tcx> {
             let p = tcx.typeck_root_def_id(d);
             let pi = self.defi(p);
             let _ = write!(o, ",\"root\":{}", pi);
+            if d.is_local() {
+                let names: Vec<String> = tcx
+                    .closure_saved_names_of_captured_variables(d)
+                    .iter()
+                    .map(|s| jstr(s.as_str()))
+                    .collect();
+                let _ = write!(o, ",\"captures\":[{}]", names.join(","));
+            }
         }
         o.push('}');
         self.defs[i] = o;
